@@ -217,25 +217,35 @@ theorem ejectEp_spec (ts : Int) (id : Nat) (l : Loop) (h : id ∈ idsOf l.eps) :
 theorem algStep_spec (k : AlgK) (a : Alg) (maxPct : Nat) (ts : Int) (out : Nat → Bool) (l : Loop) (id : Nat)
     (hout : ∀ j, out j = true → j ∈ idsOf l.eps) :
     ∃ js, LoopRel ts out l (algStep k a maxPct ts out l id) js ∧
-      (js = [] ∨ (js = [id] ∧ pctGE l.nEj.toNat l.eps.length maxPct = false)) := by
+      (js = [] ∨ (js = [id] ∧ (∃ e, findEp l.eps id = some e ∧ e.ejected = false) ∧
+        ¬ ((maxPct : Int) * (l.eps.length : Int) ≤ l.nEj * 100))) := by
   unfold algStep
   by_cases ho : out id = true
   · simp only [ho, Bool.not_true, Bool.false_eq_true, if_false]
-    by_cases hp : pctGE l.nEj.toNat l.eps.length maxPct = true
-    · simp only [hp, if_true]
-      exact ⟨[], ⟨(map_applyEj_nil ts l.eps).symm, by simp [ejCmds], by simp, by simp, by simp [ejIds_append, ejIds]⟩, Or.inl rfl⟩
-    · simp only [hp, Bool.false_eq_true, if_false]
-      split
-      · -- ejected
-        have hmem := hout id ho
-        have hs := ejectEp_spec ts id { l with draws := l.draws.tail } hmem
-        refine ⟨[id], ⟨?_, ?_, ?_, ?_, ?_⟩, Or.inr ⟨rfl, by simpa using hp⟩⟩
-        · simpa using hs.1
-        · simpa using hs.2.2.2.2
-        · simpa using hs.2.1
-        · intro j hj; simp at hj; subst hj; exact ⟨ho, hmem⟩
-        · simp [ejIds_append, hs.2.2.1, ejIds]
-      · exact ⟨[], ⟨(map_applyEj_nil ts l.eps).symm, by simp [ejCmds], by simp, by simp, by simp [ejIds_append, ejIds]⟩, Or.inl rfl⟩
+    have hmem := hout id ho
+    have hsome := findEp_isSome_of_mem hmem
+    cases hf : findEp l.eps id with
+    | none => simp [hf] at hsome
+    | some e =>
+      simp only [Option.map_some, Option.getD_some]
+      by_cases hej : e.ejected = true
+      · simp only [hej, if_true]
+        exact ⟨[], LoopRel.refl ts out l, Or.inl rfl⟩
+      · have hej' : e.ejected = false := by simpa using hej
+        simp only [hej', Bool.false_eq_true, if_false]
+        by_cases hp : (maxPct : Int) * (l.eps.length : Int) ≤ l.nEj * 100
+        · simp only [hp, decide_true, if_true]
+          exact ⟨[], ⟨(map_applyEj_nil ts l.eps).symm, by simp [ejCmds], by simp, by simp, by simp [ejIds_append, ejIds]⟩, Or.inl rfl⟩
+        · simp only [hp, decide_false, Bool.false_eq_true, if_false]
+          split
+          · have hs := ejectEp_spec ts id { l with draws := l.draws.tail } hmem
+            refine ⟨[id], ⟨?_, ?_, ?_, ?_, ?_⟩, Or.inr ⟨rfl, ⟨e, rfl, hej'⟩, by first | exact hp | exact not_false⟩⟩
+            · simpa using hs.1
+            · simpa using hs.2.2.2.2
+            · simpa using hs.2.1
+            · intro j hj; simp at hj; subst hj; exact ⟨ho, hmem⟩
+            · simp [ejIds_append, hs.2.2.1, ejIds]
+          · exact ⟨[], ⟨(map_applyEj_nil ts l.eps).symm, by simp [ejCmds], by simp, by simp, by simp [ejIds_append, ejIds]⟩, Or.inl rfl⟩
   · simp only [ho, Bool.not_false, if_true]
     exact ⟨[], LoopRel.refl ts out l, Or.inl rfl⟩
 
@@ -336,19 +346,36 @@ theorem trueCount_applyEj_le (ts : Int) (js : List Nat) (eps : List Ep) (hn : (i
     simp only [List.length_cons]
     omega
 
-/-- loop invariant: ids distinct, the counter is at least the number of ejected endpoints -/
+/-- loop invariant: ids distinct, the counter is exactly the number of ejected endpoints -/
 structure LoopInv (l : Loop) : Prop where
   nodup : (idsOf l.eps).Nodup
-  cnt : (trueCount l.eps : Int) ≤ l.nEj
+  cnt : (trueCount l.eps : Int) = l.nEj
 
-theorem LoopRel.inv {ts : Int} {out : Nat → Bool} {l r : Loop} {js : List Nat}
-    (h : LoopRel ts out l r js) (hi : LoopInv l) : LoopInv r := by
+theorem algStep_inv (k : AlgK) (a : Alg) (maxPct : Nat) (ts : Int) (out : Nat → Bool) (l : Loop) (id : Nat)
+    (hout : ∀ j, out j = true → j ∈ idsOf l.eps) (hi : LoopInv l) : LoopInv (algStep k a maxPct ts out l id) := by
+  obtain ⟨js, hr, hor⟩ := algStep_spec k a maxPct ts out l id hout
   constructor
-  · rw [h.eps, idsOf_map_applyEj]; exact hi.nodup
-  · rw [h.eps, h.nEj]
-    have := trueCount_applyEj_le ts js l.eps hi.nodup (fun j hj => (h.outs j hj).2)
-    have := hi.cnt
-    omega
+  · rw [hr.eps, idsOf_map_applyEj]; exact hi.nodup
+  · rcases hor with rfl | ⟨rfl, ⟨e, hf, hej⟩, _⟩
+    · rw [hr.eps, hr.nEj, map_applyEj_nil]; simp [hi.cnt]
+    · obtain ⟨hem, hid⟩ := findEp_some hf
+      rw [hr.eps, hr.nEj, map_applyEj_single, trueCount_setEj ts id l.eps hi.nodup e hem hid]
+      simp [hej, ← hi.cnt]
+
+theorem foldl_algStep_inv (k : AlgK) (a : Alg) (maxPct : Nat) (ts : Int) (out : Nat → Bool) (order : List Nat) (l : Loop)
+    (hout : ∀ j, out j = true → j ∈ idsOf l.eps) (hi : LoopInv l) : LoopInv (order.foldl (algStep k a maxPct ts out) l) := by
+  induction order generalizing l with
+  | nil => exact hi
+  | cons id rest ih =>
+    simp only [List.foldl_cons]
+    apply ih _ _ (algStep_inv k a maxPct ts out l id hout hi)
+    intro j hj
+    obtain ⟨js, hr, _⟩ := algStep_spec k a maxPct ts out l id hout
+    rw [hr.eps, idsOf_map_applyEj]; exact hout j hj
+
+theorem runAlg_inv (k : AlgK) (a : Alg) (maxPct : Nat) (ts : Int) (order : List Nat) (l : Loop) (hi : LoopInv l) :
+    LoopInv (runAlg k a maxPct ts order l) :=
+  foldl_algStep_inv k a maxPct ts (outSet k l.eps a) order l (fun _ h => outSet_mem h) hi
 
 /-! ### the criteria only look at ids and buckets -/
 
@@ -766,9 +793,41 @@ theorem updateCore_eps (s : St) (c : Cfg) (ids : List Nat) :
   · rfl
   · split <;> simp only [*]
 
+/-- the endpoints dropped by the update -/
+def remEps (s : St) (ids : List Nat) : List Ep :=
+  (addEps ids s.eps s.nextGen).1.filter fun e => !ids.contains e.id
+
+theorem updEps_count_split (s : St) (ids : List Nat) :
+    trueCount (updEps s ids) + trueCount (remEps s ids) = trueCount s.eps := by
+  obtain ⟨news, hp, hfresh⟩ := (addEps_spec ids s.eps s.nextGen).ex
+  unfold updEps remEps
+  simp only [trueCount_eq_countP, List.countP_filter]
+  have h1 := hp.countP_eq (fun a => Ep.ejected a && ids.contains a.id)
+  have h2 := hp.countP_eq (fun a => Ep.ejected a && !ids.contains a.id)
+  have h3 := hp.countP_eq Ep.ejected
+  have hsum : ∀ l : List Ep, List.countP (fun a => Ep.ejected a && ids.contains a.id) l +
+      List.countP (fun a => Ep.ejected a && !ids.contains a.id) l = List.countP Ep.ejected l := by
+    intro l
+    induction l with
+    | nil => rfl
+    | cons x xs ih =>
+      simp only [List.countP_cons]
+      cases h1 : Ep.ejected x <;> cases h2 : ids.contains x.id <;>
+        simp only [Bool.and_true, Bool.and_false, Bool.not_true, Bool.not_false, Bool.true_and, Bool.false_and,
+          if_true, if_false, Bool.false_eq_true] <;> omega
+  have hnews : List.countP Ep.ejected (news ++ s.eps) = List.countP Ep.ejected s.eps := by
+    rw [List.countP_append]
+    have : List.countP Ep.ejected news = 0 := by
+      rw [List.countP_eq_zero]; intro x hx; simp [Ep.ejected, (hfresh x hx).1]
+    omega
+  have := hsum (addEps ids s.eps s.nextGen).1
+  omega
+
 theorem updateCore_nEj (s : St) (c : Cfg) (ids : List Nat) :
-    (updateCore s c ids).1.nEj = (if c.noop then s.nEj - (trueCount (updEps s ids) : Int) else s.nEj) := by
-  unfold updateCore updEps
+    (updateCore s c ids).1.nEj =
+      (if c.noop then s.nEj - (trueCount (remEps s ids) : Int) - (trueCount (updEps s ids) : Int)
+       else s.nEj - (trueCount (remEps s ids) : Int)) := by
+  unfold updateCore updEps remEps
   simp only [onNoop]
   split
   · rfl
@@ -855,7 +914,7 @@ theorem reach_run (ops : List Op) : Reach (run ops) := by
 /-- endpoint ids are distinct and the counter never under-counts -/
 structure Inv (s : St) : Prop where
   nodup : (idsOf s.eps).Nodup
-  cnt : (trueCount s.eps : Int) ≤ s.nEj
+  cnt : (trueCount s.eps : Int) = s.nEj
 
 theorem idsOf_swapped (s : St) : idsOf (swapped s) = idsOf s.eps := by
   simp only [swapped, idsOf, List.map_map]; apply List.map_congr_left; intro x _; rfl
@@ -875,28 +934,30 @@ theorem fire_state (s : St) (c : Cfg) (hc : s.cfg = some c) (oS oF d : List Nat)
 theorem fire_nocfg (s : St) (hc : s.cfg = none) (oS oF d : List Nat) : (fire s oS oF d).1 = s := by
   unfold fire; simp [hc]
 
+theorem algsLoop_inv (c : Cfg) (s : St) (h : Inv s) (oS oF d : List Nat) : LoopInv (algsLoop c s oS oF d) := by
+  have h0 : LoopInv { eps := swapped s, nEj := s.nEj, draws := d } :=
+    ⟨by rw [idsOf_swapped]; exact h.nodup, by rw [trueCount_swapped]; exact h.cnt⟩
+  have h1 : LoopInv (srLoop c s oS d) := by
+    unfold srLoop
+    cases c.sr with
+    | none => exact h0
+    | some a => exact runAlg_inv .sr a c.maxPct s.now oS _ h0
+  unfold algsLoop
+  cases c.fp with
+  | none => exact h1
+  | some a => exact runAlg_inv .fp a c.maxPct s.now oF _ h1
+
 theorem inv_fire (s : St) (h : Inv s) (oS oF d : List Nat) : Inv (fire s oS oF d).1 := by
   cases hc : s.cfg with
   | none => rw [fire_nocfg s hc]; exact h
   | some c =>
     obtain ⟨he, hn, _⟩ := fire_state s c hc oS oF d
-    obtain ⟨js1, js2, sp⟩ := algsLoop_spec c s oS oF d
-    have hnd : (idsOf (algsLoop c s oS oF d).eps).Nodup := by
-      rw [sp.eps, idsOf_map_applyEj, idsOf_swapped]; exact h.nodup
-    have hmem : ∀ j ∈ js1 ++ js2, j ∈ idsOf (swapped s) := by
-      intro j hj
-      rcases List.mem_append.mp hj with hj | hj
-      · obtain ⟨a, _, ho⟩ := sp.sr j hj; exact outSet_mem ho
-      · obtain ⟨a, _, ho⟩ := sp.fp j hj; exact outSet_mem ho
-    have hcnt := trueCount_applyEj_le s.now (js1 ++ js2) (swapped s) (by rw [idsOf_swapped]; exact h.nodup) hmem
+    have hl := algsLoop_inv c s h oS oF d
     constructor
-    · rw [he, idsOf_unejPass]; exact hnd
+    · rw [he, idsOf_unejPass]; exact hl.nodup
     · rw [he, hn, unejPass_k]
       have h3 := trueCount_unejPass c s.now (algsLoop c s oS oF d).eps
-      rw [sp.eps] at h3 ⊢
-      rw [sp.nEj]
-      rw [trueCount_swapped] at hcnt
-      have := h.cnt
+      have := hl.cnt
       omega
 
 theorem inv_plain (s : St) (h : Inv s) (op : Op) (hp : plainOp op = true) : Inv (step s op) := by
@@ -909,7 +970,7 @@ theorem trueCount_unej_all (eps : List Ep) : trueCount (eps.map fun e => { e wit
 theorem inv_update (s : St) (h : Inv s) (c : Cfg) (ids : List Nat) : Inv (update s c ids).1 := by
   have k := update_kept s c ids
   have hnd := updEps_nodup s ids h.nodup
-  have hle := updEps_count_le s ids
+  have hsplit := updEps_count_split s ids
   have hcnt := h.cnt
   constructor
   · rw [k.eps.ids, updateCore_eps]
